@@ -96,6 +96,9 @@ def r6_dtype(chk):
         for c in _ast.walk(fd):
             if isinstance(c, _ast.Call) and norm(c.func) in ("np.full_like", "numpy.full_like", "np.empty_like", "numpy.empty_like") \
                     and not any(k.arg == "dtype" for k in c.keywords):
+                fill = c.args[1] if len(c.args) > 1 else next((k.value for k in c.keywords if k.arg == "fill_value"), None)
+                if norm(c.func).endswith("full_like") and isinstance(fill, _ast.Constant) and isinstance(fill.value, int):
+                    continue  # an integer fill survives any numeric dtype (np.full_like(x, 1) is np.ones_like(x))
                 bad.append(norm(c)[:80])
         if bad or q.split(".")[-1] in set(_nnm.registry(chk.idx)["estim"]) | set(_nnm.registry(chk.idx)["bet"]) | set(_nnm.registry(chk.idx)["tests"]) | {"sjm", "welford_mean_var"}:
             chk.ob("C12.R6", f"{_nnm.REL}:{q}", "no-array-inherits-the-sample's-dtype", not bad,
